@@ -1,9 +1,86 @@
-import PsyVerif.Model.Halo
-/-! # C22 — property theorems (under construction) -/
+import PsyVerif.Lemmas.Halo
+/-! # C22 — distributed-memory LFRic code never reads a dirty halo
+
+Model: `PsyVerif/Model/Halo.lean`.  The static side mirrors PSyclone (with the fix
+`fixes/C22-required-max-depth-m1.patch` applied to `required`), the dynamic side
+(`specNeed`, `specAfter`, `stepF`) is the independent specification. -/
 namespace C22
+
+/-- the defect class of known finding `C22-write-only-kernel-reads-annexed`: a cell-column kernel
+whose updates are all `GH_WRITE`, iterating over owned cells, reads a field that is not known to
+be discontinuous without a stencil, while annexed dofs are not computed redundantly -/
+def writeOnlyPattern (cfg : Cfg) (k : Kern) (b : Bound) (a : Arg) : Bool :=
+  !cfg.annexed && !k.dofKernel && k.allWrites && b.lvl == .owned && !a.disc && a.stencil.isNone
+
+/-- bounds that `LFRicLoop.load` and the transformations can produce: `nannexed` only for dof
+loops with COMPUTE_ANNEXED_DOFS, `ncolour` only for kernels whose updates are all `GH_WRITE`
+(any other kernel on a continuous space iterates into the halo) -/
+def Bound.ok (cfg : Cfg) (k : Kern) (b : Bound) : Prop :=
+  (b.lvl = .annexed → k.dofKernel = true ∧ cfg.annexed = true) ∧
+  (b.coloured = true → b.lvl = .owned → k.allWrites = true) ∧ b.lvl.wf
 
 /-! ## The property -/
 
-theorem C22_stub : (1 : Nat) = 1 := rfl
+/-- **Marks are conservative.**  After a loop that writes field `a.field`, the state recorded by
+the generated `set_dirty`/`set_clean` calls is no cleaner than what the loop computed, and the
+actual state stays well formed (a clean level-1 halo includes clean annexed dofs). -/
+theorem C22_marks_conservative (H : Nat) (env : Nat → Nat) (cont : Bool) (k : Kern) (b : Bound)
+    (a : Arg) (s s1 s2 : RState) (hH : 1 ≤ H) (hb : b.lvl.wf)
+    (hd : a.disc = true → cont = false) (hacc : a.accOK)
+    (ha : argOf k a.field = some a) (hw : a.access.writes = true)
+    (hwf : s.recorded ≤ s.act.cd)
+    (h1 : stepF H env cont a.field s (.loop k b) = .ok s1)
+    (h2 : stepsF H env cont a.field (marksOf k b a) s1 = .ok s2) :
+    s2.recorded ≤ s2.act.cd ∧ (s2.act.cd = 0 ∨ s2.act.ann = true) := by
+  obtain ⟨_, rfl⟩ := stepF_loop_writer H env cont k b a s s1 ha hw h1
+  rw [stepsF_marksOf] at h2
+  cases h2
+  exact recAfter_le_specAfter H cont k b a s.recorded s.act hH hb hd hacc hw hwf
+
+/-- non-vacuity: a `GH_INC` loop to halo depth 2 on a continuous field, started with everything
+dirty except annexed dofs and halo depth 1, records clean depth 1 and has clean depth 1. -/
+example :
+    let a : Arg := ⟨0, .inc, false, none⟩
+    let k : Kern := ⟨false, [a]⟩
+    let b : Bound := ⟨.halo 2, false⟩
+    let s : RState := ⟨1, ⟨true, 1⟩, none⟩
+    ∃ s1 s2, stepF 3 (fun _ => 1) true 0 s (.loop k b) = .ok s1 ∧
+      stepsF 3 (fun _ => 1) true 0 (marksOf k b a) s1 = .ok s2 ∧ s2.recorded = 1 ∧ s2.act.cd = 1 := by
+  refine ⟨_, _, rfl, rfl, ?_, ?_⟩ <;> decide
+
+/-- **Fields without a halo exchange are safe.**  When `_halo_read_access` says that an argument
+does not read its halo (so `create_halo_exchanges` never considers it), what the kernel needs
+according to the specification holds in every well-formed state — except for the defect class
+`writeOnlyPattern` (known finding). -/
+theorem C22_no_halo_access_sound (cfg : Cfg) (H : Nat) (env : Nat → Nat) (cont : Bool) (k : Kern)
+    (b : Bound) (a : Arg) (s : FState)
+    (hra : haloReadAccess cfg k b a = false)
+    (hpat : writeOnlyPattern cfg k b a = false)
+    (hb : b.ok cfg k) (hd : a.disc = true → cont = false)
+    (hann : cfg.annexed = true → cont = true → s.ann = true) :
+    sat s (specNeed H env cont k b a) = true := by
+  obtain ⟨lvl, col⟩ := b
+  obtain ⟨f, acc, disc, st⟩ := a
+  obtain ⟨dof, args⟩ := k
+  obtain ⟨ann⟩ := cfg
+  obtain ⟨hb1, hb2, hb3⟩ := hb
+  obtain ⟨sa, scd⟩ := s
+  generalize haw : Kern.allWrites ⟨dof, args⟩ = aw at *
+  simp only [Level.wf] at hb3
+  cases acc <;> cases st <;> cases lvl <;> cases dof <;>
+    simp [haloReadAccess, Level.isHalo, Access.reads] at hra <;>
+    simp [specNeed, sat, lvlOf, Access.reads] <;>
+    (try simp [writeOnlyPattern, haw] at hpat) <;> (try simp [haw] at hra) <;>
+    (try simp at hb1) <;> (try simp at hb2) <;> (try simp at hann) <;> (try simp at hd) <;>
+    (cases cont <;> cases disc <;> cases ann <;> cases col <;> cases aw <;> simp_all)
+
+/-- the finding is real on the model: with annexed dofs dirty, the kernel of the witness reads them -/
+theorem C22_safe_counterexample_write_only :
+    runF 1 (fun _ => 1) true 0
+      (lower ⟨false⟩ (placeInvoke ⟨false⟩
+        [⟨true, [⟨0, .write, false, none⟩]⟩,
+         ⟨false, [⟨3, .write, true, none⟩, ⟨0, .read, false, none⟩]⟩]))
+      ⟨0, ⟨false, 0⟩, none⟩ = .error .dirtyRead := by
+  rfl
 
 end C22
